@@ -247,6 +247,11 @@ func suiteChunk(prop, only, tier string, seed uint64, model string) *Report {
 	for _, b := range loadCorpus("/verif/corpus/json") {
 		add(b)
 	}
+	// malformed numbers cut at every byte: a read that ends right after the decimal point, the
+	// exponent letter or a sign must not change the verdict
+	for _, s := range []string{"[123.]", "{\"a\":4567.}", "[10., 2]", "[77.e3]", "[12.e]", "-12.", "123.", "[1.]", "[100e]", "[100e+]", "[25.5e-]", "[-]", "[-.5]", "[00]", "[01.5]", "[1.5.5]", "[12a]", "{\"n\":12.,\"m\":1}", "[123.,4]", "[12345678901234567890.]", "[0.]", "[-0.]", "[1e5.]"} {
+		add([]byte(s))
+	}
 	nDocs, grid := 700, 6
 	if tier == "thorough" {
 		nDocs, grid = 2200, 12 // every job is held in memory together with its model answer: 9000 documents need more than 12 GB
